@@ -65,6 +65,21 @@ def emit(sj):
     out.append('  auto chain = [&](int s) { for (; s >= 0; s = PARENT[s]) if (!m.isActive((hfsm2::StateID)s)) return false; return true; };')
     out.append('  for (int d : LEAVES) { m.immediateChangeTo((hfsm2::StateID)d); ++probes; if (!chain(d)) ++probeFail; }')
     out.append('  for (int i = 0; i < %d; ++i) { m.changeTo((hfsm2::StateID)PAIRS[i][0]); m.changeTo((hfsm2::StateID)PAIRS[i][1]); m.update(); ++probes; if (!chain(PAIRS[i][0]) || !chain(PAIRS[i][1])) ++probeFail; }' % len(pairs))
+    # a leaf of one orthogonal branch together with restart() of a whole region of another branch
+    rcand = []
+    for x in leaves:
+        ax = anc(x)
+        for rn in nodes:
+            if rn['kind'] == 'L' or rn['id'] == 0 or rn['id'] in ax: continue
+            ar = set(anc(rn['id']))
+            lca = next(i for i in ax if i in ar)
+            if nodes[lca]['kind'] == 'O' and x not in shp.subtree(nodes, rn['id']): rcand.append((x, rn['id']))
+    rr.shuffle(rcand); rpairs = rcand[:150] if sum(1 for n in nodes if n['kind'] == 'C') >= 2 else []
+    comp_in = {}
+    for x, r in rpairs: comp_in[r] = [c for c in shp.subtree(nodes, r) if nodes[c]['kind'] == 'C']
+    out.append('  const int RP[][2] = { %s };' % (', '.join('{%d,%d}' % p for p in rpairs) or '{0,0}'))
+    out.append('  auto restarted = [&](int r) { const int SUB[][2] = { %s }; for (auto& e : SUB) if (e[0] == r && m.isActive((hfsm2::StateID)e[1]) && m.activeSubState((hfsm2::StateID)e[1]) != 0) return false; return true; };' % (', '.join('{%d,%d}' % (r, c) for r, cs in comp_in.items() for c in cs) or '{-1,0}'))
+    out.append('  for (int i = 0; i < %d; ++i) { for (int o = 0; o < 2; ++o) { if (o == 0) { m.changeTo((hfsm2::StateID)RP[i][0]); m.restart((hfsm2::StateID)RP[i][1]); } else { m.restart((hfsm2::StateID)RP[i][1]); m.changeTo((hfsm2::StateID)RP[i][0]); } m.update(); ++probes; if (!chain(RP[i][0]) || !chain(RP[i][1]) || !restarted(RP[i][1])) ++probeFail; } }' % len(rpairs))
     out.append('  printf("\\"probes\\":%d,\\"probe_fail\\":%d,", probes, probeFail);')
     out.append('  const auto& st = m.structure(); printf("\\"names\\":["); for (unsigned i = 0; i < st.count(); ++i) printf("%s\\"%s\\"", i ? "," : "", st[i].name ? st[i].name : ""); printf("],");')
     out.append('  printf("\\"active\\":["); for (int i = 0; i < %d; ++i) printf("%%s%%d", i ? "," : "", (int)m.isActive((hfsm2::StateID)i)); printf("],\\"asserts\\":%%d}\\n", g_bad);' % len(nodes))
